@@ -1,7 +1,7 @@
 (* C13/Check.v — correspondence + property oracle for one harness case (executable only).
 
    Case layout (first token = tag 1, zigzag-encoded):
-     ign
+     ign  nft (does the data source's NotFound also accept the typed NoVisibleChildError?)
      ds: list of (kind id status code hist)   status 0 = history, 1 = not found, 2 = other error(code)
          hist = list of (ver vis pay); ids not listed are not found
      create, modify, delete: each nodes ways relations, each a list of (id ver vis pay)
@@ -131,12 +131,12 @@ Definition oracle (dsl : list (kind * Z * lookup)) (ign : bool) (c : change)
     end.
 
 Definition check_change : P (list Z) :=
-  ign <- pbool ;; dsl <- plist pds_entry ;;
+  ign <- pbool ;; nft <- pbool ;; dsl <- plist pds_entry ;;
   cr <- psection ;; mo <- psection ;; de <- psection ;;
   errkind <- pint ;; ek <- pint ;; eid <- pint ;; acts <- plist pobs_action ;;
   let c := mkChange cr mo de in
   let ds := ds_of dsl in
-  let j1 := result_matches ds (annotate_change ds ign c) errkind ek eid acts in
+  let j1 := result_matches ds (annotate_change nft ds ign c) errkind ek eid acts in
   let j2 := oracle dsl ign c errkind ek eid acts in
   ret (code_if j1 1 ++ code_if j2 2)%list.
 
